@@ -7,9 +7,35 @@ import traceback
 from .common import Result, repo_guard, Inconclusive
 
 
+def reach_monitor():
+    """sys.monitoring PY_START tool: records which functions of the repository were entered (callback
+    returns DISABLE after the first hit of a code object, so the cost is ~0)."""
+    import os
+
+    hits = {}
+    try:
+        mon = sys.monitoring
+        root = os.path.realpath(os.environ.get("VERIF_REPO", "/repo")) + os.sep
+        tool = mon.PROFILER_ID
+        mon.use_tool_id(tool, "vp-reach")
+
+        def cb(code, offset):
+            f = code.co_filename
+            if f.startswith(root):
+                hits.setdefault(f[len(root):], set()).add(code.co_qualname)
+            return mon.DISABLE
+
+        mon.register_callback(tool, mon.events.PY_START, cb)
+        mon.set_events(tool, mon.events.PY_START)
+    except Exception:
+        pass
+    return hits
+
+
 def main():
     spec = json.load(open(sys.argv[1]))
     res = Result(spec["prop"])
+    hits = reach_monitor()
     try:
         repo_guard()
         eng = importlib.import_module("vp.engines." + spec["engine"])
@@ -23,7 +49,9 @@ def main():
     except Exception:
         # a crash of the harness itself is never a verdict about the repository
         res.inconclusive.append("harness error: " + traceback.format_exc()[-1500:])
-    json.dump(res.to_json(), open(sys.argv[2], "w"))
+    out = res.to_json()
+    out["reach"] = {f: sorted(q) for f, q in hits.items()}
+    json.dump(out, open(sys.argv[2], "w"))
 
 
 if __name__ == "__main__":
